@@ -10,10 +10,10 @@ from harness.tr import mk_array
 
 EVIDENCE = {
     "functions": ["LineTensor.perpendicular (both branches)", "SubspaceTensor.parallel/project", "LineTensor.mirror", "PlaneTensor.perpendicular/parallel/project", "LineTensor.base_point/direction/basis_matrix",
-                  "SubspaceTensor.general_point", "operators.is_perpendicular/is_coplanar/is_collinear/is_concurrent/is_cocircular", "SubspaceTensor.is_parallel", "operators.angle_bisectors"],
+                  "SubspaceTensor.general_point", "operators.is_perpendicular/is_coplanar/is_collinear/is_concurrent/is_cocircular", "SubspaceTensor.is_parallel", "operators.angle_bisectors", "PlaneTensor.mirror"],
     "bounds": "2-D lines and points with free real coordinates (line not at infinity where the construction needs a finite line; the point on / off the line are separate paths); "
               "3-D planes with free reals; single objects; angle_bisectors: lattice line x line with one free real slope parameter through a lattice vertex (4 configurations; complex square roots as constrained pairs), "
-              "in 3-space one configuration (thorough); is_coplanar: four free points of 3-space",
+              "in 3-space one configuration (thorough); is_coplanar: four free points of 3-space; Plane.mirror: 4 lattice planes x a point with one free coordinate (2 in quick, 2 in thorough)",
     "outside": "3-D lines (SVD-based basis_matrix; nested complex radicals for mirror; built, tier 'attempt'), angle_bisectors of two fully free lines and further 3-D configurations (attempt, undecided in 300 s), collections (C04), rounding",
     "assumptions": ["ProjectiveTensor.__eq__/is_multiple: lemma proved in C20", "np.linalg.qr: Gram-Schmidt contract stub for PlaneTensor.basis_matrix"],
 }
@@ -395,6 +395,32 @@ def mk_angle_bisectors_3d(k):
     return case
 
 
+def mk_plane_mirror(k):
+    """lattice plane of 3-space, point with one free coordinate: mirror(p) is the Euclidean reflection  p - 2 (e.p)/|n|^2 n  (which is an involution with the
+    projection as midpoint)"""
+    CONF = [((0, 0, 1, 0), (None, 1, 2)), ((1, 1, 1, -3), (2, None, 0)), ((1, 2, -2, 4), (1, 1, None)), ((1, 0, 0, -2), (None, 3, -1))]
+
+    def case(ctx):
+        from geometer import Point, Plane
+        if ctx.symbolic:
+            from symgeo import symnp
+            symnp.SVD_RANK["rank"] = 2
+        e, p3 = CONF[k]
+        s_ = ctx.real("s")
+        p = [s_ if x is None else x for x in p3] + [1]
+        ep = sum(e[i] * p[i] for i in range(4))
+        ctx.assume(ctx.neg(ctx.is_zero(ep)))
+        q = Plane(np.array(e, dtype=float)).mirror(Point(mk_array(ctx, p)))
+        n2 = sum(x * x for x in e[:3])
+        ref = [n2 * p[i] - 2 * ep * e[i] for i in range(3)] + [n2]
+        qe = E(q)
+        if len(qe) != 4:
+            qe = E(q.array[0]) if hasattr(q, "array") else qe
+        ctx.require("plane.mirror:nonzero", R.nonzero(ctx, qe))
+        ctx.require("plane.mirror:is-reflection", R.proportional(ctx, qe, ref))
+    return case
+
+
 def cases(tier, seed):
     Q, T = ("quick", "thorough"), ("thorough",)
     cs = []
@@ -421,5 +447,7 @@ def cases(tier, seed):
         add(f"angle_bisectors_2d_{k}", mk_angle_bisectors(k), tiers=Q, max_paths=2000)
     for k in range(3):
         add(f"angle_bisectors_3d_{k}", mk_angle_bisectors_3d(k), tiers=T if k == 0 else ("attempt",), max_paths=2000)
+    for k in range(4):
+        add(f"plane_mirror_3d_{k}", mk_plane_mirror(k), tiers=Q if k in (0, 3) else T, max_paths=2000)
     add("is_coplanar_3d", case_is_coplanar_3d, tiers=Q, max_paths=2000)
     return cs
